@@ -278,8 +278,11 @@ CLAIMED = {
             'region whose precision is a creation-time constant; the only state surviving a call is the '
             'pair of append-only segment lists; the lookup index is inside the list (x >= x0 enforced, '
             'right bisection, n-1 under n < len); results are re-rounded after the restore.  For the '
-            'error bound: the step radius is a minimum over every component.  Decides these clauses, '
-            'not the size of the truncation error.',
+            'error bound: the step radius is a minimum over every component, and it is either estimated from a '
+            'wide window of trailing coefficients or checked a posteriori against the differential equation at the '
+            'end of the step (O-R10; genuine defect repaired: lacunary and polynomial solutions were integrated with '
+            'the maximal step); the step test scales with the solution (O-R11: one known finding, the purely '
+            'absolute test).  Decides these clauses, not the size of the truncation error.',
             'Accuracy of the Taylor steps (degree, Euler step h, the /2 safety factor) is numerical and '
             'not decided.',
             'DESIGN.md section 4 (C34)'),
